@@ -9,8 +9,84 @@ from .. import gen
 
 class C02Episode(Episode):
     def setup(self):
-        super().setup()
+        if self.cfg.get('sockets'):
+            self.setup_with_sockets()
+        else:
+            super().setup()
+        self.post_setup()
+
+    def setup_with_sockets(self):
+        """on-demand watchers need real listening sockets: the arbiter
+        select()s on them in its periodic check"""
+        import os
+        from circus.sockets import CircusSocket
+        from ..world import World
+        self.world = World(self.cfg)
+        d = self.world.scratch_dir()
+        self.lsocks = []
+        for i, sc in enumerate(self.cfg['sockets']):
+            self.lsocks.append(CircusSocket(name=sc['name'], path=os.path.join(
+                d, 's%d.sock' % i)))
+        ws = [self.world.make_watcher(wc) for wc in self.cfg['watchers']]
+        self.world.build(watchers=ws, sockets=self.lsocks)
+
+    def op_connect(self, i, op):
+        """a client connects to a managed socket (socket event)"""
+        import socket as _socket
+
+        def fire():
+            if not getattr(self, 'lsocks', None):
+                return
+            s = self.lsocks[op.get('s', 0) % len(self.lsocks)]
+            try:
+                c = _socket.socket(_socket.AF_UNIX, _socket.SOCK_STREAM)
+                c.setblocking(False)
+                try:
+                    c.connect(s.path)
+                except BlockingIOError:
+                    pass
+                self.clients.append(c)
+                self.fired['socket_event'] += 1
+                # a socket event reaches every on-demand watcher
+                for wc in self.cfg['watchers']:
+                    if wc['opts'].get('on_demand'):
+                        self.stopped_markers.pop(wc.get('marker', wc['name']),
+                                                 None)
+                self.pending_conn = True
+            except OSError:
+                pass
+        self.place(op.get('place'), fire, 'op')
+
+    def accept_pending(self):
+        """the freshly spawned on-demand worker accepts what is queued"""
+        for s in getattr(self, 'lsocks', []):
+            while True:
+                try:
+                    s.setblocking(False)
+                    conn, _ = s.accept()
+                    conn.close()
+                except (BlockingIOError, OSError):
+                    break
+        self.pending_conn = False
+
+    def collect(self):
+        super().collect()
+        import socket as _socket
+        for c in getattr(self, 'clients', []):
+            try:
+                c.close()
+            except Exception:
+                pass
+        for s in getattr(self, 'lsocks', []):
+            try:
+                _socket.socket.close(s)
+            except Exception:
+                pass
+
+    def post_setup(self):
         w = self.world
+        self.clients = []
+        self.pending_conn = False
         self.stopped_markers = {}     # marker -> request idx that stopped it
         self.completions = 0
         self.probe_reqs = []          # (kind, wname, Req, stop Req)
@@ -21,6 +97,9 @@ class C02Episode(Episode):
                                 for wc in self.cfg['watchers'])
         self.removed = set()
         self.nostop_markers = set()
+        self.ondemand_markers = set(
+            wc.get('marker', wc['name']) for wc in self.cfg['watchers']
+            if wc['opts'].get('on_demand'))
 
     # a start-class request reaching the daemon lifts the 'stays stopped' claim
     def op_req(self, i, op):
@@ -51,6 +130,8 @@ class C02Episode(Episode):
 
     def on_spawn(self, p):
         m = p.marker
+        if m in self.ondemand_markers:
+            self.accept_pending()
         if m in self.stopped_markers:
             self.viol('spawn_while_stopped',
                       'worker %d spawned for watcher %s although it was '
@@ -123,7 +204,10 @@ class C02Episode(Episode):
                               % (r.cmd, m, p.pid, p.state, p.beh.label),
                               once=(r.idx, p.pid), state=p.state)
             if r.cmd in ('stop', 'quit', 'rm') and \
-                    not self.started_since(r, m):
+                    not self.started_since(r, m) and \
+                    not (m in self.ondemand_markers and self.pending_conn):
+                # (an un-accepted connection is a socket event that is still
+                # to come for an on-demand watcher)
                 self.stopped_markers[m] = r.idx
             if r.cmd == 'rm':
                 self.removed.add(m)
@@ -141,6 +225,8 @@ class C02Episode(Episode):
 
     def judge_probes(self):
         for kind, name, q, r in self.probe_reqs:
+            if self.name2marker.get(name.lower()) in self.ondemand_markers:
+                continue       # may be started again by a socket event
             o = q.reply
             if not isinstance(o, dict) or 'errno' in o:
                 continue      # e.g. the watcher has been removed meanwhile
@@ -189,6 +275,8 @@ class C02Episode(Episode):
         # stopped watchers are still stopped, with nothing alive
         k = self.world.kernel
         for m, ridx in self.stopped_markers.items():
+            if m in self.ondemand_markers and self.pending_conn:
+                continue
             live = [p.pid for p in k.live_by_marker(m)]
             if live and m not in self.removed:
                 self.viol('alive_in_stopped_watcher', 'watcher %s was stopped '
@@ -226,6 +314,43 @@ class C02(Prop):
         ops = gen.gen_history(rng, cfg, n, self.REQS, self.WEIGHTS,
                               second_req_kinds=['incr', 'decr', 'kill',
                                                 'signal', 'status', 'stop'])
+        if rng.random() < 0.2:
+            # an on-demand watcher: started by a socket event, outside the
+            # command lock (the statement's exception clause)
+            cfg['sockets'] = [{'name': 'ondemand'}]
+            wc = rng.choice(cfg['watchers'])
+            wc['opts'].update({'on_demand': True, 'use_sockets': True,
+                               'numprocesses': rng.choice([2, 3]),
+                               'warmup_delay': rng.choice([0.3, 1.7]),
+                               'singleton': False})
+            wi = cfg['watchers'].index(wc)
+            # keep to the part of on-demand behaviour the statement speaks
+            # about: a watcher that loses a worker while a socket event is
+            # pending is a different story (see DESIGN 10.6)
+            wc['mix'] = [m for m in wc['mix']
+                         if m.get('label') in ('obedient', 'slow',
+                                               'stubborn')] or \
+                [{'p': 1, 'label': 'obedient'}]
+            ops = [o for o in ops if not (
+                o.get('op') == 'die' and o['w'] % len(cfg['watchers']) == wi)
+                and not (o.get('op') == 'req' and o.get('w') in (wi, None)
+                         and o['cmd'] in ('kill', 'signal', 'incr', 'decr',
+                                          'set', 'reload', 'restart',
+                                          'start', 'rm', 'quit'))]
+            extra = []
+            for _ in range(rng.choice([1, 2, 3])):
+                extra.append({'op': 'connect', 's': 0,
+                              'place': gen.gen_place(rng, False)})
+                extra.append({'op': 'wait', 'kind': 'time',
+                              'n': rng.choice([0.1, 0.5, 1.1, 2.0])})
+                extra.append({'op': 'req', 'cmd': 'stop', 'w': wi,
+                              'props': {}, 'waiting': True,
+                              'place': rng.choice([
+                                  'now', {'dt': rng.choice([0.05, 0.2, 0.4,
+                                                            1.0])}])})
+                extra.append({'op': 'quiet', 'checks': rng.choice([1, 2])})
+            pos = rng.randrange(len(ops) + 1)
+            ops[pos:pos] = extra
         for op in ops:
             if op['op'] == 'req' and op['cmd'] in ('stop', 'restart', 'rm',
                                                    'quit'):
